@@ -129,7 +129,7 @@ ASSUMPTIONS = ["X: thread-free layers (map, flat_map, map+error_fn, cancel_on_sh
                "S: chains with worker-thread layers compared pairwise back to back (P=0); names: every layer type, explicit names chosen by the explorer, bind at every position"]
 BOUNDS_TEXT = {"quick": "X: 2 contracts; S: 49 (before, after) single-layer pairs over sync + 7 over a pool; names over all chains of length <= 2 x bind position", "thorough": "chains of length 3"}
 MUST_REACH = {"*": ["pair-compared", "name-checked"]}
-BUDGET = {"quick": 120.0, "thorough": 900.0}
+BUDGET = {"quick": 120.0, "thorough": 600.0}
 
 
 def plan(tier, seed):
